@@ -282,6 +282,11 @@ def run(chk, repo, tier):
            det or 'no `out[slices[k]] += fields[k].data` accumulation found', f.loc())
     chk.ob('C06-e', 'D-sum', f.key, 'accumulator starts as zeros of the merged shape', ok_zero, '', f.loc())
 
+    disjoint_rules(chk, repo)
+
+
+def disjoint_rules(chk, repo):
+    """reduce / _disjoint: every (transitively) overlapping group is merged (C06-f; reused by C03-c, C07-a)."""
     # ---------------------------------------------------------------- C06-f
     fd = repo.func('field._disjoint')
     _, paths, _ = analyse(repo, fd)
